@@ -109,10 +109,21 @@ func makeAnnoCase(r *fw.Rng, thorough bool, format, form string, vp gen.VarProfi
 		ac.annoTxt = gen.RenderGenBank(r, ac.an, gbTranslate(ref))
 	} else {
 		withFasta := true
+		fastaSeq := ref
 		if (form == "fasta" && ac.refID != "") || (form == "sam" && ac.refFile) {
 			withFasta = r.Chance(0.6)
+			if r.Chance(0.3) {
+				// the reference is given separately, so the sequence embedded in the gff is not
+				// used: embed a slightly different genome of the same length (an older version)
+				b := []byte(ref)
+				for k := 0; k < 1+len(b)/15; k++ {
+					i := r.Intn(len(b))
+					b[i] = gen.OtherBase(r, b[i])
+				}
+				fastaSeq = string(b)
+			}
 		}
-		ac.annoTxt = gen.RenderGFF(r, ac.an, withFasta)
+		ac.annoTxt = gen.RenderGFFSeq(r, ac.an, withFasta, fastaSeq)
 	}
 	return ac
 }
